@@ -264,6 +264,30 @@ def gen(rng, n_manual, n_auto):
         c["faults"] = {str(k1): [["F0L0", str(r1)]], str(k2): [[f"F0L{x}", str(T + 6 * dt)]]}
         c["n_inc"] = k2 + int((2 * T + 8 * dt + 6) / dt) + 8
         cases.append(c)
+    for q in range(max(2, n_auto // 10)):
+        # targeted: the silent fault under ICT-based control (fully instrumented, with and without an ICT network).  Chain
+        # T = {L0} | U = {L1, ...} | P = {Lp, ...}; a fault in U is isolated at once and the breaker recloses; the first line of P
+        # (which carries the boundary disconnector and is out of service) then fails silently; U is repaired first: the sensors
+        # have to report P's line before U is put back
+        c = ctl.gen_scenario(rng, max_lines=3, ctrl="main", nfeed=1, allow_mg=False)
+        c["kind"] = "auto"
+        nu = rng.choice([2, 3]); npp = rng.choice([1, 2])
+        nl = 1 + nu + npp
+        fd = {"parent": [-1] + list(range(nl - 1)), "sw": [0, 1] + [0] * (nu - 1) + [1] + [0] * (npp - 1), "cust": [1] * nl, "load": ["1/50"] * nl, "cost": [1] * nl}
+        c["spec"]["feeders"] = [fd]; c["spec"]["tie"] = None; c["spec"]["mg"] = None
+        c["spec"]["ctrl"].pop("nodev", None); c["spec"]["ctrl"].pop("ict", None)
+        if q % 2 == 1:
+            from . import c06
+            ict = c06.fallible_ict(rng, c["spec"])
+            names = [f"SF0L{i}" for i in range(nl)] + [f"IF0L{i}a" for i in range(nl)] + [f"IF0L{i}b" for i in range(nl)]
+            ict["attach"] = {nm: rng.randrange(ict["n"]) for nm in names}
+            c["spec"]["ctrl"]["ict"] = ict
+        dt = rng.choice([F(1), F(1, 2)]); c["dt"] = str(dt)
+        k1 = rng.randint(1, 2); k2 = k1 + rng.randint(1, 2)
+        repU = (k2 - k1) * dt + rng.choice([2, 3]) * dt
+        c["faults"] = {str(k1): [[f"F0L{rng.randint(1, nu)}", str(repU)]], str(k2): [[f"F0L{1 + nu}", str(repU + 6)]]}
+        c["n_inc"] = k2 + int((repU + 6 + 2 * F(c["spec"]["ctrl"]["T"])) / dt) + 8
+        cases.append(c)
     for q, c in enumerate([c for c in cases if c.get("kind") == "auto"]):
         if q % 7 == 3:
             c["unit"] = rng.choice([1, 2, 4])
